@@ -35,7 +35,7 @@ ASSUME = [
 ]
 
 HEADER = """From Coq Require Import ZArith List Bool.
-From BP Require Import Bits Schema Spec PyRt Eqb GoRt GoEqb.
+From BP Require Import Bits Schema Spec PyRt Eqb PyDecProofs GoRt GoEqb.
 Import ListNotations.
 Open Scope Z_scope.
 """
@@ -195,7 +195,7 @@ def run(ck: Check) -> None:
     ck.coverage["trusted_base"] = ["Coq 8.16.1 kernel + vm_compute", "tools/translate_go.py", "tools/t1_go.py",
                                    "tools/t1_py.py", "hand-written Go semantics in coq/theories/GoRt.v",
                                    "no axioms (Print Assumptions: closed)"]
-    ck.try_prove("C19.v", model_vo=("theories/GoEqb.vo",))
+    ck.try_prove("C19.v", model_vo=("theories/GoEqb.vo", "theories/PyDecProofs.vo"))
 
     ns, nv = (120, 2) if ck.quick else (1500, 6)
     cases: List[Tuple[sg.Schema, List[Any], str]] = []
@@ -283,8 +283,9 @@ def run(ck: Check) -> None:
             cv = sg.coq_val(s.top, v)
             exprs.append(f"(if res_bytes_eqb (go_encode_proc g_{i} {cv}) (Ok (wire t_{i} {cv})) then 0 else 1)")
             metas.append((i, "enc", k))
-            exprs.append(f"(if res_val_sim t_{i} (go_decode_proc g_{i} (go_default (norm t_{i})) (wire t_{i} {cv})) "
-                         f"(Ok {cv}) then 0 else 1)")
+            # exactly the right-hand side of C19_go_accessors_spec_decode (canonical Go storage of v)
+            exprs.append(f"(if res_val_eqb (go_decode_proc g_{i} (go_default (norm t_{i})) (wire t_{i} {cv})) "
+                         f"(Ok (canon (norm t_{i}) {cv})) then 0 else 1)")
             metas.append((i, "dec", k))
         sh.add(defs, exprs, metas)
 
@@ -340,7 +341,9 @@ def run(ck: Check) -> None:
                    "1,7,8,9,15,16,17,31,32,33,63,64); each compiled by the real compiler to Go and to Python; "
                    "a case is one schema (distinct main-file texts counted; every schema has >= 1 field); per schema: "
                    "emitted Go tables vs renderer model, vs emitted Python tables, sizes, and the Go runtime model "
-                   "evaluated on the emitted tables for values in modes random/max/min vs Spec.wire")
+                   "evaluated on the emitted tables for values in modes random/max/min: encode vs Spec.wire and "
+                   "decode of the wire vs canon (norm t) v (the right-hand sides of the proved theorems "
+                   "C19_go_accessors_spec_encode / _decode)")
     cov["tie"] = {**cov.get("tie", {}), "schemas": len(cases), "corpus": n_corpus,
                   "t1_parsed": len(cases) - impl_fail - len(t1_fail), "t1_rejected": len(t1_fail),
                   "codes": counts, "property_mismatches": n_prop, "model_mismatches": n_model,
